@@ -556,9 +556,26 @@ def foreach(ctx: Ctx, rep: Report) -> None:
         )
         sn = [n for n in g.nodes if n.id in pre_body and isinstance(
             n.stmt, ast.Assign) and norm(n.stmt.targets[0]) == 'subnumbering']
+        def _subnum(v: ast.AST) -> bool:
+            """{L[i]: i for i in range(len(L))} or its spellings
+            {q: i for i, q in enumerate(L)}, dict(zip(L, range(len(L)))),
+            with L = op.location."""
+            L = 'op.location'
+            if isinstance(v, ast.DictComp) and len(v.generators) == 1:
+                gen = v.generators[0]
+                if gen.ifs:
+                    return False
+                if norm(gen.iter) == f'range(len({L}))' and isinstance(
+                        gen.target, ast.Name):
+                    i = gen.target.id
+                    return norm(v.key) == f'{L}[{i}]' and norm(v.value) == i
+                if norm(gen.iter) == f'enumerate({L})' and isinstance(
+                        gen.target, ast.Tuple) and len(gen.target.elts) == 2:
+                    i, qn_ = (norm(x) for x in gen.target.elts)
+                    return norm(v.key) == qn_ and norm(v.value) == i
+            return norm(v) in (f'dict(zip({L}, range(len({L}))))',)
         rep.check(
-            len(sn) == 1 and norm(sn[0].stmt.value) == (
-                '{op.location[i]: i for i in range(len(op.location))}'),
+            len(sn) == 1 and _subnum(sn[0].stmt.value),
             'FLOW', qn, f.path, pre_lp.lineno,
             'sub-numbering maps the i-th qudit of the location to i',
             'the block renumbering is not {op.location[i]: i}',
